@@ -325,6 +325,8 @@ for _p in ('C14', 'C10'):
     PROPS[_p]['contracts'] = PROPS[_p]['contracts'] + BASE
     PROPS[_p]['tables'] = PROPS[_p]['tables'] + ['value-funnel']
 PROPS['C12']['contracts'] = PROPS['C12']['contracts'] + BASE[1:]
+# comparison of a valueless scalar fails with the library's error, also with itself
+PROPS['C19']['contracts'] = PROPS['C19']['contracts'] + [(BS, 'type.base::SimpleAsn1Type.__eq__')]
 TG = 'contracts.tag'
 TAGS = [(TG, 'type.tag::TagSet.tagImplicitly'), (TG, 'type.tag::TagSet.tagExplicitly'),
         (TG, 'type.tag::TagSet.isSuperTagSetOf')]
